@@ -204,15 +204,15 @@ def specs(tier):
             out.append(s2)
     if tier == "thorough":
         out.append(Spec("h1_claims21_rewind_pub_n3", build_h1(3, claims=(2, 1), publisher=True),
-                        cfg={"cap": 3, "loops": loops(3, 3)}, unwind=8, timeout=7200,
+                        cfg={"cap": 3, "loops": loops(3, 3)}, unwind=8, timeout=3600,
                         desc="h1 with 2+1 claims, a rewinder and a concurrent publisher",
                         bounds={"n": 3, "threads": 4, "spurious_cas_failures_per_thread": 1, "cas_retries": 3}))
         out.append(Spec("h1_two_rewinders_n3", build_h1(3, claims=(1, 1), rewinders=2, publisher=False),
                         cfg={"cap": 3, "loops": loops(3, 3)}, unwind=8,
-                        timeout=7200, desc="h1 with two concurrent rewinders",
+                        timeout=3600, desc="h1 with two concurrent rewinders",
                         bounds={"n": 3, "threads": 4, "spurious_cas_failures_per_thread": 1, "cas_retries": 3}))
-        out.append(Spec("h2_frontier_3pub_n3", build_h2(3, 3, 2), cfg={"cap": 3, "loops": loops(3)}, unwind=8, timeout=7200,
+        out.append(Spec("h2_frontier_3pub_n3", build_h2(3, 3, 2), cfg={"cap": 3, "loops": loops(3)}, unwind=8, timeout=3600,
                         desc="h2 with 3 publishers", bounds={"n": 3, "threads": 4}))
-        out.append(Spec("h2_frontier_n4", build_h2(4, 2, 2), cfg={"cap": 4, "loops": loops(4)}, unwind=9, timeout=7200,
+        out.append(Spec("h2_frontier_n4", build_h2(4, 2, 2), cfg={"cap": 4, "loops": loops(4)}, unwind=9, timeout=3600,
                         desc="h2 at n=4", bounds={"n": 4, "threads": 3}))
     return out
